@@ -56,6 +56,10 @@ def _fold(t: Term, what: str) -> bool:
     from ..sym import _int_const
     if _int_const(t) is not None:
         return _int_const(t) != 0          # the truth value of an integer (a bit mask tested with ``bool(a & b)``)
+    ident = subterms(t, lambda x: x[0] == "same")
+    if ident:
+        # identity of two equal values is not determined by the values: a name built at run time is equal to, but not the same object as, a stored one
+        return _fold(subst(t, {a: FALSE for a in ident}), what + " [equal names taken as distinct objects: the test uses `is`]")
     try:
         v = _concrete(t)
     except _NotConcrete as e:
@@ -148,6 +152,11 @@ def check(model: Model, rep: Report, tier: str):
         _i3(model, rep)
     with rep.isolated():
         _i4(model, rep)
+    from .c16 import q11
+    from .common import share_rule as _share
+    with rep.isolated():
+        _share(rep, model, q11, "C19.I6", "edge identifiers are matched as unordered pairs wherever the connectivity classes look them up: ParityGroup.contains decides membership "
+               "with `in` on the identifier objects, not on their order-dependent `.id` strings (= C16.Q11)")
     from .c01 import r13
     from .common import share_rule
     with rep.isolated():
